@@ -26,14 +26,18 @@ SPEC = dict(
          "{0, 1, size of one trace -1/0/+1, half / all / all+1 / 10x the buffered data size} and ~1% real checkAlloc calls with MaxAlloc "
          "set to (heap reading - delta), delta from {-1e9 (within budget), 0, 1, 100, 1e4, 1e6, 2^40}; span data sizes from "
          "{0,1,2,10,100,1000} (many impact ties) and wall-clock ages 0..2xTraceTimeout (impact multipliers 1..9 and, with tiny timeouts, "
-         "wall-clock dependent); non-trivial = an ejection decided >= 1 trace out of a buffer of >= 2; distinct by transcript hash",
+         "wall-clock dependent); 30% of the cases plant age-flip pairs (an older small trace, age 1-4 or 8 quarters of the trace timeout, next to a fresh "
+         "trace whose size lies strictly between the old one's raw size and its age-weighted impact) followed by an ejection; "
+         "non-trivial = an ejection decided >= 1 trace out of a buffer of >= 2; distinct by transcript hash",
     trusted_base=["clockwork.FakeClock", "the repository's mocks (config.MockConfig, MockStressReliever, MockSharder, MockPeers, metrics.MockMetrics)",
-                  "runtime/metrics heap reading and Trace.CacheImpact (wall clock) taken as inputs: the values the code itself computed are read back "
-                  "(memoised totalImpact; gauge and constant recorded by the code's own Metrics calls)",
+                  "runtime/metrics heap reading taken as an input (gauge and constant recorded by the code's own Metrics calls); the wall clock read by "
+                  "Span.CacheImpact is bracketed: span ages are observed as [lower, upper] bounds around the call and the code's memoised "
+                  "totalImpact must lie between the modelled estimates for the two bounds (equal in almost all generated cases)",
                   "sort.Slice / map iteration tie order treated as an acceptor input (checked, not predicted)"],
     manifest=dict(
         text="Lean theorems over all buffer contents, impacts, byte shares and histories of a collector worker: an accepted ejection is a prefix "
-             "of an impact-descending order of the buffer (eject_prefix), stops exactly at the first point where the released data size exceeds "
+             "of an impact-descending order of the buffer (eject_prefix; eject_prefix_modelled: descending in the modelled age-weighted estimate "
+             "sum size*(4*age/TraceTimeout+1) with Go's truncation order, impact_formula, impact_monotone_in_age, memoisation as coded), stops exactly at the first point where the released data size exceeds "
              "the share or the buffer is empty (eject_stop_rule), every ejected trace is decided with the memory send reason, with all its "
              "spans, and leaves the buffer (eject_decides), nothing is lost: buffered-before = buffered-after + ejected and in every reachable "
              "state every accepted trace is either buffered or decided, never both (eject_conserves), and the per-worker share is "
@@ -47,5 +51,6 @@ SPEC = dict(
     assumptions=["sendTracesEarly runs atomically on its worker goroutine (the harness plays the worker's sendEarly select branch)",
                  "buffered traces are never already marked Sent (makeDecision's error branch is unreachable for buffered traces)",
                  "heap reading (runtime/metrics) and what runtime.GC() frees are runtime facts outside the model",
+                 "sort.Slice calls the comparison (and so memoises Trace.totalImpact) for every element iff the buffer holds >= 2 traces",
                  "every trace is kept (deterministic sampler, rate 1) so that each decision reaches the recording transmission"],
 )
